@@ -21,7 +21,7 @@
 
 void harness(void)
 {
-	uint8_t in_msg[NMSG]; IN(size_t, in_len); IN(size_t, in_split); IN(size_t, in_k);
+	uint8_t in_msg[NMSG]; IN(size_t, in_len); IN(size_t, in_split); IN(size_t, in_k); V_FILL(in_msg);
 	uint8_t store[SLACK + FCAP], *frame = store + SLACK; struct iovec out = { frame, FCAP }, src;
 	MPT_STRUCT(encode_state) enc = MPT_ENCODE_INIT; MPT_STRUCT(decode_state) dec = MPT_DECODE_INIT;
 	ssize_t r; size_t flen, i; int d;
